@@ -371,7 +371,13 @@ func (s *Sess) CreateURR(req *ie.IE) error {
 			refPdrNum++
 		}
 	}
-	s.URRIDs[id] = &URRInfo{
+	// A Create URR naming a URR the session still holds (the data plane rejects
+	// the duplicate and goes on measuring) must not restart its UR-SEQN.
+	prev, held := s.URRIDs[id]
+	if held && prev.removed {
+		held = false
+	}
+	info := &URRInfo{
 		refPdrNum: refPdrNum,
 		MeasureMethod: report.MeasureMethod{
 			DURAT: req.HasDURAT(),
@@ -386,9 +392,17 @@ func (s *Sess) CreateURR(req *ie.IE) error {
 			MNOP: mInfo.HasMNOP(),
 		},
 	}
+	if held {
+		info.SEQN = prev.SEQN
+	}
+	s.URRIDs[id] = info
 
 	err = s.rnode.driver.CreateURR(s.LocalID, req)
 	if err != nil {
+		if held {
+			// nothing changed in the data plane: neither does the bookkeeping
+			s.URRIDs[id] = prev
+		}
 		return err
 	}
 	return nil
